@@ -14,7 +14,7 @@ for line in open(os.path.join(ROOT, "properties.jsonl")):
 CHECKS = {
     "C10": ("proof",
             "VCs generated from the AST of the real _p_norm (loop invariants with a recursively defined Sigma, per-segment NRA obligations) discharged by z3/cvc5; bounded run-time stand-in vs closed-form integral",
-            "For p in {1,2,3,4} every path of the real _p_norm body is proved to add exactly the integral of |y|^p over the segment and the two loops to accumulate the double sum, for all real end-points, all numbers of depths and breakpoints. Real p, class entry points, norm laws and sup-norm stability are bounded stand-ins.",
+            "For p in {1,2,3,4} (polynomial), for every integer p >= 1 and for every real p >= 1 (abstract power with its sign / recurrence / monotonicity axioms) every path of the real _p_norm body is proved to add exactly the integral of |y|^p over the segment and the two loops to accumulate the double sum, for all real end-points and all numbers of depths and breakpoints; the exact class's p_norm delegates to it and rejects negative p. Sup norms, norm laws and sup-norm stability are bounded stand-ins.",
             "floats as reals (A1); closed form = integral (calculus, numerically cross-checked); VC generator + models + contracts trusted; z3/cvc5"),
     "C14": ("proof",
             "VCs from the AST of evalHeatKernel/heat (nested-loop Sigma invariants, modular call contract) + spec lemmas on the summand, z3/cvc5; bounded run-time stand-in for the float-only effects",
